@@ -114,6 +114,7 @@ type SpecDB struct {
 	Assumptions []string // free-text "assume" notes declared in spec files
 	SortAlias map[string]string
 	LazySMT   [][2]string // (symbol, axiom): included only in scripts mentioning the symbol
+	Private   map[string]string // ghost name -> package prefix: only contracts of those packages may mention it
 }
 
 type SMTSig struct {
@@ -177,7 +178,24 @@ func (db *SpecDB) loadFile(path string, defaultPkg string) error {
 			pending = ""
 		}
 		word, rest := splitWord(t)
+		if isGo {
+			for g, pre := range db.Private {
+				if !strings.HasPrefix(pkg, pre) && mentionsIdent(t, g) {
+					return fmt.Errorf("%s:%d: ghost state %s is private to contracts under %s (interface contracts do not list it, so no caller outside may rely on it)", path, ln, g, pre)
+				}
+			}
+		}
 		switch word {
+		case "private":
+			f := strings.Fields(rest)
+			if len(f) != 2 {
+				return fmt.Errorf("%s:%d: private NAME PKGPREFIX", path, ln)
+			}
+			if db.Private == nil {
+				db.Private = map[string]string{}
+			}
+			db.Private[f[0]] = f[1]
+			continue
 		case "package":
 			pkg = rest
 			cur = nil
@@ -262,6 +280,26 @@ func (db *SpecDB) loadFile(path string, defaultPkg string) error {
 		}
 	}
 	return sc.Err()
+}
+
+func mentionsIdent(line, name string) bool {
+	for i := 0; ; {
+		j := strings.Index(line[i:], name)
+		if j < 0 {
+			return false
+		}
+		j += i
+		before := j == 0 || !isIdentByte(line[j-1])
+		after := j+len(name) >= len(line) || !isIdentByte(line[j+len(name)])
+		if before && after {
+			return true
+		}
+		i = j + 1
+	}
+}
+
+func isIdentByte(c byte) bool {
+	return c == '_' || c == '$' || c >= '0' && c <= '9' || c >= 'a' && c <= 'z' || c >= 'A' && c <= 'Z'
 }
 
 func looksLikeGhostDecl(rest string) bool {
